@@ -22,10 +22,17 @@ NOTES = {
  'C16-c': 'missed at first: stop() was only injected while the victim bus was idle or alone -> rich stop scenarios (`stop_enum` variant with >=2 buses, backlog on the victim, an inline awaiter on another bus, stop at every step k)',
  'C18-c': 'missed at first: generated timeouts were all positive -> timeout 0 / 0.0 included in `expect` and `expect_enum`',
  'C20-c': 'missed at first: (1) run_in_executor/to_thread had no simulated counterpart (real threads forbidden) -> thread hop modelled as a deferred call after 1 ms, (2) simulated time.time() started at 0 so the "every 5 s" overload check never ran -> epoch-like base, (3) no cancellation right after arrival -> `cancel_at` = arrival + epsilon',
+ 'C15-d': 'fourth round (after the second repair round). Missed at first: the liveness clause allowed 5 virtual seconds between "bus idle" and the return -> 0.5 s plus the injected stall / CPU-burn time; "idle" now also accounts for events of the bus\'s history that another bus is still processing',
+ 'C15-a': 'detected before the second repair round through a run loop killed by a handler\'s CancelledError (F23); with F23 repaired nothing killed a run loop any more and the seed was missed -> `cancel_runloop` fault (the bus task cancelled from outside while the program goes on) in `idle_dead_loop`; that fault kind then exposed the orphaned queue getter in the unchanged tree (F25, fixed). demo.py relies on F23: confirmed by replay instead',
+ 'C08-b': 'detected before the second repair round through a forwarded child (F4 mechanism); with F4 repaired it was missed -> `spawn_dispatch` op / `late_child` profile (a background task started by a handler dispatches a child after the handler\'s event has completed). demo.py encodes the F4 behaviour (deadlocks on the repaired tree): confirmed by replay instead',
+ 'C05-b': 'demo.py invalidated by the F1/F14 repair (its scenario now shows known finding F0 without the patch too): confirmed by replay instead',
+ 'C06-b': 'demo.py relies on F23 to end a run loop: confirmed by replay instead (the check reaches the restart through an injected run-loop cancellation)',
+ 'C10-c': 'demo.py cannot see the defect since the F5b repair completes the interrupted children: confirmed by replay instead (`not_cancelled_at_deadline`)',
  'C04-c': 'missed at first: C04 profiles had no handler timeouts -> `timeouts` added to C04 (and F5b recognised there)',
 }
 out = ['| seeded id | property | change (by an independent sub-agent) | needs | caught by (quick check: clauses) | note |', '|---|---|---|---|---|---|']
-n = miss = 0
+n = miss = retired = 0
+FIRST_MISSED = set(NOTES) - {'C05-b', 'C06-b', 'C10-c'}
 for d in sorted(os.listdir('/verif/seeded')):
     m = json.load(open(f'/verif/seeded/{d}/meta.json'))
     caught = []
@@ -38,9 +45,17 @@ for d in sorted(os.listdir('/verif/seeded')):
     if isinstance(needs, list):
         needs = '; '.join(map(str, needs))
     needs = str(needs).replace('\n', ' ').replace('|', '/')
-    out.append(f"| {d} | {m.get('property')} | {summ[:220]} | {needs[:180]} | {'; '.join(caught) or 'NOT DETECTED'} | {NOTES.get(d, 'caught as built')} |")
+    if m.get('retired'):
+        out.append(f"| {d} | {m.get('property')} | {summ[:220]} | {needs[:180]} | retired | {m['retired']} |")
+        retired += 1
+        continue
+    how = '; '.join(caught) or 'NOT DETECTED'
+    if not m.get('verified', {}).get('ok'):
+        cr = m.get('confirmed_by_replay', {})
+        how += ' (demo.py obsolete; replay fails with / passes without the patch)' if cr.get('ok') else ' (UNCONFIRMED)'
+    out.append(f"| {d} | {m.get('property')} | {summ[:220]} | {needs[:180]} | {how} | {NOTES.get(d, 'caught as built')} |")
     n += 1
-    miss += d in NOTES
+    miss += d in FIRST_MISSED
 tbl = '\n'.join(out)
 p = '/verif/DESIGN.md'
 s = open(p).read()
@@ -48,6 +63,6 @@ i = s.index('| seeded id | property | change (by an independent sub-agent)')
 j = s.index('Lessons kept in the machinery:')
 s = s[:i] + tbl + '\n\n' + s[j:]
 import re
-s = re.sub(r'All \d+ \(.*?\nlast column', f'All {n} (three rounds per property; later rounds were told only which mechanisms the earlier ones had used) are\ndetected by the quick check of their own property; {miss} were missed when first tried and led to the strengthening noted in the\nlast column', s, count=1, flags=re.S)
+s = re.sub(r'All \d+ \(.*?\nlast column', f'All {n} live ones (up to four rounds per property; later rounds were told only which mechanisms the earlier ones had used; {retired} more were\nretired when a repair of /repo made them harmless, see their rows) are\ndetected by the quick check of their own property; {miss} were missed when first tried and led to the strengthening noted in the\nlast column', s, count=1, flags=re.S)
 open(p, 'w').write(s)
-print(n, 'seeded,', miss, 'first missed')
+print(n, 'live seeded,', retired, 'retired,', miss, 'first missed')
